@@ -6,6 +6,16 @@ S_NOTE = ("Theorems are about the Lean model; S-tier ones assume the FloatSpec c
           "proved consistent by the real-number witness); the model is tied to the code by the bit-exact correspondence on this run's "
           "generated lines only. Axioms: propext, Classical.choice, Quot.sound.")
 TEXT = {
+ "C04": {"level": "Proved for all canonical angles of any blade count: 8+2 spellings identical and the blade-wrap laws (G); a-a is literally the "
+                  "zero angle, the difference is canonical, T(a-b) = T(a)-T(b) within 1e-10+1e-15 with no spurious turns when T(b)<=T(a), and "
+                  "otherwise a forward rotation congruent mod whole turns with blade<=4 (=4 only with remainder 0) (S). Not yet proved "
+                  "(explored by oracle clauses only): (a+b)-b~a and the Div<f64> total law.",
+         "note": S_NOTE},
+ "C07": {"level": "Proved: grade = blade mod 4 and predicates, base_angle, magnitudes untouched, is_opposite <-> blade counts differ by exactly two "
+                  "(unbounded integers) and the remainder test (G); each step operator's exact blade delta (2,2,2,2,1,1,3,3) with remainder value "
+                  "and canonicity preserved; history theorem by induction over any sequence of step operations of any length; 4-cycle "
+                  "corollaries (S). Mixed histories with add/sub/mul/div are covered by C03/C04 step theorems plus the oracle's rule check.",
+         "note": S_NOTE},
  "C03": {"level": "Proved for all canonical angles of any blade count: 12 spellings identical (G), bit-for-bit commutativity, zero identity, "
                   "blade = sum with at most one carry, invariant preserved, |T(a+b) - (T a + T b)| < 1e-10 + 1e-15 in rounded arithmetic (S); "
                   "associativity of totals proved at 4x the tolerance (partial: property states 2x). Tie: all 12 spellings bit-exact.",
